@@ -260,6 +260,15 @@ class Lexer:
         escaped = 0
         t.lexer.lineno += t.value.count('\n')
         s = t.value[1:-1]
+        # Remove the current indentation from the continuation lines of a
+        # multi-line string. The text after the opening quote is not at the
+        # start of a line, and escapes are resolved afterwards, so that neither
+        # leading spaces of a one-line string nor "\n" escapes are affected.
+        indentation_str = ' ' * _indent_level_to_spaces_count(self.cur_indent)
+        lines = s.split('\n')
+        s = '\n'.join(lines[:1] + [
+            line[len(indentation_str):] if line.startswith(indentation_str) else line
+            for line in lines[1:]])
         new_str = ""
         for i in range(0, len(s)):
             c = s[i]
@@ -275,12 +284,7 @@ class Lexer:
                     escaped = 1
                 else:
                     new_str += c
-        # remove current indentation
-        indentation_str = ' ' * _indent_level_to_spaces_count(self.cur_indent)
-        lines_without_indentation = [
-            line[len(indentation_str):] if line.startswith(indentation_str) else line
-            for line in new_str.splitlines()]
-        t.value = '\n'.join(lines_without_indentation)
+        t.value = new_str
         return t
 
     # Ignore comments.
